@@ -37,6 +37,11 @@ Proof. exact K6_wrap. Qed.
 Theorem C13_reference_oracle : OfitOK ofit_dp /\ OfitBlind ofit_dp.
 Proof. split; [exact ofit_dp_ok|exact ofit_dp_blind]. Qed.
 
+(* ... and for the executable model of the smawk crate, the implementation's own oracle *)
+From TW Require Import WrapSmawk SmawkShape SmawkBlind.
+Theorem C13_smawk_oracle : OfitOK ofit_smawk /\ OfitBlind ofit_smawk.
+Proof. split; [exact ofit_smawk_ok|exact ofit_smawk_blind]. Qed.
+
 (* the shortcut hypothesis is C05(b): with cw c <= utf8_len c and the ASCII separator it is
    a theorem for first-fit (any oracle) and for the reference optimal-fit *)
 Theorem C13_shortcut_ok_first_fit : forall (cw : char -> N) alnum lbc custom_sp ofit o first p,
@@ -79,6 +84,7 @@ Proof. exact Touching_Attached. Qed.
 
 Print Assumptions C13_wrap.
 Print Assumptions C13_reference_oracle.
+Print Assumptions C13_smawk_oracle.
 Print Assumptions C13_shortcut_ok_first_fit.
 Print Assumptions C13_shortcut_ok_optimal_fit.
 Print Assumptions C13_strip.
